@@ -22,7 +22,6 @@ pub fn id_u64(id: LocalChannelId) -> u64 {
 pub trait Backend: 'static {
     type W: AranyaState + Send + 'static;
     type R: AfcState<CipherSuite = CS> + Send + Sync + 'static;
-    const NAME: &'static str;
 
     /// A fresh state with room for `cap` channels and `readers` client
     /// handles (separate mappings for shared memory, clones for memory).
@@ -38,7 +37,6 @@ pub struct Shm;
 impl Backend for Shm {
     type W = shmenv::Writer;
     type R = shmenv::Reader;
-    const NAME: &'static str = "shm";
 
     fn create(cap: usize, readers: usize, seed: u64) -> Result<(Self::W, Vec<Self::R>), String> {
         shmenv::create(cap, readers, seed)
@@ -62,7 +60,6 @@ pub struct Mem;
 impl Backend for Mem {
     type W = memory::State<CS>;
     type R = memory::State<CS>;
-    const NAME: &'static str = "memory";
 
     fn create(_cap: usize, readers: usize, _seed: u64) -> Result<(Self::W, Vec<Self::R>), String> {
         let s = memory::State::<CS>::new();
